@@ -72,3 +72,42 @@ func VerifC16LexPrefixed(n int) {
 		vFail("string literal denotes other bytes than its escapes describe")
 	}
 }
+
+// VerifC16LexLong: a literal longer than the lexer's read buffer. k plain letters, then 3 arbitrary
+// symbolic bytes (every escape spelling that fits, every raw byte), then a letter: with k symbolic in a
+// window around 4096 the three bytes straddle the buffer boundary of the reader at every alignment, so a
+// look-ahead that fails at the edge of the buffer shows.
+func VerifC16LexLong(base int, span int) {
+	q := byte('\'')
+	if vBool("doublequote") {
+		q = '"'
+	}
+	k := base + vPick("plain letters in front", span)
+	pad := make([]byte, k)
+	for i := range pad {
+		pad[i] = byte('a' + i%26)
+	}
+	b := make([]byte, 3)
+	for i := range b {
+		b[i] = vByte("body")
+		vAssume(b[i] >= 1 && b[i] < 0x80)
+	}
+	tail := string(b) + "z"
+	src := string([]byte{q}) + string(pad) + tail + string([]byte{q})
+	vNote("source", "quote + k letters + "+tail+" + quote")
+	vNoteInt("k", k)
+	wantTail, ok := refUnescape(tail, q)
+	if !ok {
+		return
+	}
+	want := string(pad) + wantTail
+	tokens, err := initLexer(strings.NewReader(src)).getTokens()
+	if err != nil || len(tokens) != 2 || tokens[0].TokenType != STRING {
+		vFail("a complete string literal is rejected by the lexer")
+	}
+	if tokens[0].Lexeme != want {
+		vNoteInt("got length", len(tokens[0].Lexeme))
+		vNoteInt("want length", len(want))
+		vFail("string literal denotes other bytes than its escapes describe")
+	}
+}
